@@ -183,6 +183,17 @@ class BlindGenerator(Generator):
         return tuple.__new__(cls, basis)
 
 
+def make_generator(v, cls, p, a, b, base, n, **kw):
+    """construct a Generator; a constructor failure on valid parameters (it runs 256 doublings and one fixed-base
+    multiplication) is itself a violation of the group-law property"""
+    try:
+        return cls(p, a, b, base, n, **kw)
+    except Exception as e:  # noqa
+        v("generator-construction-raises", "Generator(p,a,b,G,n) on a valid prime-order curve raises %s: %s" % (type(e).__name__, str(e)[:100]),
+          (p, a, b, base, n), REPO_HDR + "from pycoin.ecdsa.Generator import Generator; Generator(%d,%d,%d,(%d,%d),%d)" % (p, a, b, base[0], base[1], n))
+        return None
+
+
 def _toy_pmax(opts, quick=31, thorough=59):
     return quick if opts.get("tier") == "quick" else thorough
 
@@ -312,7 +323,9 @@ def c02_toy_group_law(opts):
         bases = pts if p <= (7 if quick else 11) else [pts[0], pts[rng.randrange(len(pts))]][quick:]
         for base in bases:
             gi = ref.index[base]
-            G = Generator(p, a, b, base, N)
+            G = make_generator(v, Generator, p, a, b, base, N)
+            if G is None:
+                continue
             ghdr = REPO_HDR + "from pycoin.ecdsa.Generator import Generator; G=Generator(%d,%d,%d,(%d,%d),%d); " % (p, a, b, base[0], base[1], N)
             t.case(key=(cid, "negG", gi))
             try:
@@ -356,6 +369,7 @@ def c02_toy_group_law(opts):
     t.exhaustive = exhaustive_triples
     res = t.result()
     res["curves"] = len(curves)
+    res["violation_counts"] = dict(v.count)
     return res
 
 
@@ -381,7 +395,9 @@ def c02_toy_scalar_mul(opts):
         cid = (p, a, b)
         cv = Curve(p, a, b, N)
         cv0 = Curve(p, a, b)  # no stored order
-        G = BlindGenerator(p, a, b, pts[rng.randrange(len(pts))], N, entropy_f=fixed_entropy(rng.randrange(N)))
+        G = make_generator(v, BlindGenerator, p, a, b, pts[rng.randrange(len(pts))], N, entropy_f=fixed_entropy(rng.randrange(N)))
+        if G is None:
+            continue
         if p <= full_p:
             idxs = list(range(N))
         else:
@@ -459,6 +475,7 @@ def c02_toy_scalar_mul(opts):
     t.exhaustive = all_full
     res = t.result()
     res["curves"] = len(curves)
+    res["violation_counts"] = dict(v.count)
     return res
 
 
@@ -507,10 +524,14 @@ def c02_toy_generator_blinded(opts):
                 blinds += [0, 1, None]
             for bf in blinds:
                 if bf is None:
-                    G = Generator(p, a, b, base, N)  # default os.urandom blinding
+                    G = make_generator(v, Generator, p, a, b, base, N)  # default os.urandom blinding
+                    if G is None:
+                        continue
                     bfv = G._blinding_factor
                 else:
-                    G = BlindGenerator(p, a, b, base, N, entropy_f=fixed_entropy(bf))
+                    G = make_generator(v, BlindGenerator, p, a, b, base, N, entropy_f=fixed_entropy(bf))
+                    if G is None:
+                        continue
                     bfv = bf
                     # the factor actually in use must be the one supplied (else the 'any blinding factor' sweep is void)
                     if G._blinding_factor != bf % N:
@@ -536,6 +557,7 @@ def c02_toy_generator_blinded(opts):
     t.exhaustive = False
     res = t.result()
     res["curves"] = len(curves)
+    res["violation_counts"] = dict(v.count)
     return res
 
 
@@ -550,7 +572,9 @@ def c02_toy_points_for_x(opts):
     for (p, a, b, pts) in curves:
         N = len(pts) + 1
         cid = (p, a, b)
-        G = Generator(p, a, b, pts[0], N)
+        G = make_generator(v, Generator, p, a, b, pts[0], N)
+        if G is None:
+            continue
         by_x = {}
         for (x, y) in pts:
             by_x.setdefault(x, []).append(y)
@@ -577,6 +601,7 @@ def c02_toy_points_for_x(opts):
     t.exhaustive = True
     res = t.result()
     res["curves"] = len(curves)
+    res["violation_counts"] = dict(v.count)
     return res
 
 
@@ -588,10 +613,20 @@ def _scalars(n, rng, nrand):
         + [rng.randrange(n, 2 ** 260) for _ in range(max(1, nrand // 3))]
 
 
-def _named_curves():
-    from pycoin.ecdsa import secp256k1 as k1, secp256r1 as r1
-    return [("secp256k1", k1.secp256k1_generator, (k1._p, k1._a, k1._b, (k1._Gx, k1._Gy), k1._r)),
-            ("secp256r1", r1.secp256r1_generator, (r1._p, r1._a, r1._b, (r1._Gx, r1._Gy), r1._r))]
+def _named_curves(v=None):
+    import importlib
+    out = []
+    for name in ("secp256k1", "secp256r1"):
+        try:
+            m = importlib.import_module("pycoin.ecdsa." + name)
+        except Exception as e:  # noqa  (the module constructs its generator at import time)
+            if v is None:
+                raise
+            v("generator-construction-raises", "importing pycoin.ecdsa.%s raises %s: %s" % (name, type(e).__name__, str(e)[:100]), name,
+              REPO_HDR + "import pycoin.ecdsa.%s" % name)
+            continue
+        out.append((name, getattr(m, name + "_generator"), (m._p, m._a, m._b, (m._Gx, m._Gy), m._r)))
+    return out
 
 
 @bounded("C02.production_backends", props=["C02"],
@@ -608,9 +643,11 @@ def c02_production_backends(opts):
     v = V(t)
     from pycoin.ecdsa.native.openssl import OpenSSL
     have_ossl = bool(OpenSSL)
-    for (name, Gn, (p, a, b, Gxy, n)) in _named_curves():
+    for (name, Gn, (p, a, b, Gxy, n)) in _named_curves(v):
         accelerated = have_ossl and type(Gn).multiply is not Curve.multiply
-        Gp = Generator(p, a, b, Gxy, n)  # pure Python on the same parameters
+        Gp = make_generator(v, Generator, p, a, b, Gxy, n)  # pure Python on the same parameters
+        if Gp is None:
+            continue
         assert type(Gp).multiply is Curve.multiply and type(Gp).raw_mul is Generator.raw_mul
         imp = {"secp256k1": "from pycoin.ecdsa.secp256k1 import secp256k1_generator as G",
                "secp256r1": "from pycoin.ecdsa.secp256r1 import secp256r1_generator as G"}[name]
@@ -745,6 +782,7 @@ def c02_production_backends(opts):
                     v("points-for-x-wrong", "points_for_x wrong on %s" % lbl, (name, x), hdr + "print(G.points_for_x(%d))" % x)
     t.exhaustive = False
     res = t.result()
+    res["violation_counts"] = dict(v.count)
     res["openssl_loaded"] = have_ossl
     res["libsecp256k1_loaded"] = False
     return res
@@ -791,7 +829,9 @@ def c02_large_user_curves(opts):
     from pycoin.ecdsa import bls12_381_g1 as bls
     curves.append(("BLS12-381-G1", bls._p, bls._a, bls._b, (bls._Gx, bls._Gy), bls._r, None, bls.bls12_381_g1))
     for (nm, p, a, b, Gxy, n, nid, shipped) in curves:
-        G = shipped if shipped is not None else Generator(p, a, b, Gxy, n)
+        G = shipped if shipped is not None else make_generator(v, Generator, p, a, b, Gxy, n)
+        if G is None:
+            continue
         Gn = None
         if nid is not None and OpenSSL:
             Gn = type("G_" + nm.replace("-", ""), (create_OpenSSLOptimizations(nid), Generator), {})(p, a, b, Gxy, n)
@@ -855,4 +895,6 @@ def c02_large_user_curves(opts):
             if not ok:
                 v("large-curve-kP-wrong", "k*P wrong on %s" % nm, (nm, Pxy, k), None)
     t.exhaustive = False
-    return t.result()
+    res = t.result()
+    res["violation_counts"] = dict(v.count)
+    return res
